@@ -171,6 +171,59 @@ CHECKS.update({
     },
 })
 
+CHECKS.update({
+    'C16': {
+        'category': 'exploration',
+        'technique': 'runtime monitoring in one process per time zone (TZ configuration) with a calendar-arithmetic reference and zoneinfo facts as oracle; sweep of every UTC-offset transition 1900-2100',
+        'text': ('In each of eight zones random datetimeNew component lists are compared with datetime+timedelta normalisation, the seven '
+                 'getters with the components, (d + n) - d with n, parse(format(d)) with d (also with sub-millisecond digits, truncated) and '
+                 'the ISO text with the zone offset, for local times that exist with a whole-minute offset; every offset transition of '
+                 'the zone is swept minute by minute; ISO near-misses must parse to null.'),
+        'note': 'Trusts datetime/timedelta arithmetic and the system tz database through zoneinfo; non-existent local times and non-whole-minute offsets are excluded as the statement does.',
+        'design_ref': '5/C16',
+    },
+    'C17': {
+        'category': 'fault_enumeration',
+        'technique': 'fault enumeration over every fetch position (missing / raising / broken text) on seeded include trees over a virtual file system; FetchRecorder history and log compared with RefVM + RefResolve',
+        'text': ('Include trees to depth 4 / fan-out 3 over URL, absolute-path, relative-path, bare-name and no-URL-function roots with '
+                 'relative, sub-directory, ../, absolute and system references, adjacent includes, early returns and globals/functions '
+                 'defined by includes are executed fault-free and with each fetch in turn failing in three ways; result or error '
+                 '(kind and resolved location), ordered fetch sequence, log and globals must equal the reference.'),
+        'note': 'Trusts RefVM/resolve; included texts are parsed by the real parser on both sides; includes only at top level of a file; system prefix ends in "/".',
+        'design_ref': '5/C17',
+    },
+    'C18': {
+        'category': 'exploration',
+        'technique': 'mutation sanitizer + determinism monitor around lint_script; execution oracle (apply the edit a warning licenses and re-run on the real runtime); RefLint label/redefinition facts',
+        'text': ('Generated structured programs (with injected pointless and call-hiding statements and callee-valued locals), jump-level '
+                 'models with user/duplicate/dangling labels and duplicate functions/arguments, and the shipped scripts are linted on a '
+                 'frozen model twice; unused-variable/argument warnings are tested by renaming, unused-label/pointless-statement warnings '
+                 'by deletion and re-execution; unknown-label and redefinition warning sets must equal RefLint; a runtime "Unknown jump '
+                 'label" must have been predicted.'),
+        'note': 'One-level functions; models with duplicated function names are checked for purity and facts only; budget-limited runs are compared as prefixes.',
+        'design_ref': '5/C18',
+    },
+    'C19': {
+        'category': 'exploration',
+        'technique': 'runtime monitoring of data functions through generated scripts and the exported Python API against a relational reference (RefRel over the independent comparator and RefEval); own CSV writer for the typed round trip in four time zones',
+        'text': ('Tables with duplicate keys, nulls, mixed key types, colliding field names and JSON punctuation in keys are filtered, sorted '
+                 '(multi-key, directions, stability), topped (float-literal counts), aggregated (six functions), joined (pairing, '
+                 'untouched left fields, injective non-colliding renaming) and extended with calculated fields; typed tables are written '
+                 'as CSV and read back, and date-like invalid text must stay a string.'),
+        'note': 'Unmatched-row policy of dataJoin only required to be uniform; cross-category order of dataTop/dataAggregate not asserted; F2/F3/F10 repaired by fix commits 76fca0e/503cb62/e302378.',
+        'design_ref': '5/C19',
+    },
+    'C20': {
+        'category': 'exploration',
+        'technique': 'reconstruction oracle over an exhaustive enumeration of line-list pairs, executed through execute_script with the CLI system-include fetcher; parse/validate/lint of every shipped include',
+        'text': ('All pairs of line lists of length <= 4 (quick) / <= 6 (thorough) over three letters and random pairs to 40 lines (arrays, '
+                 'LF and CRLF strings) are diffed by the shipped diffLines; blocks must be well formed and Identical+Remove / '
+                 'Identical+Add must reconstruct the inputs; every shipped include must parse, validate, lint clean and load.'),
+        'note': 'Minimality of the diff is not asserted; F6 (objectdiffs typo) repaired by fix commit e0a4236.',
+        'design_ref': '5/C20',
+    },
+})
+
 NOT_YET = {}
 
 
